@@ -121,6 +121,7 @@ class Tlc:
         self.violated = None      # name of violated invariant / property
         self.rejected_line = None
         self.monviols = []        # (line, text)
+        self.monnotes = []        # (line, text)
         self.error = None
         self.wall = 0.0
         self.cex = None           # list of states (dicts) when a counterexample was dumped
@@ -182,6 +183,8 @@ def run_tlc(module, cfg, workers=8, env=None, extra=(), timeout=3600, xmx='8g', 
         r.rejected_line = int(m.group(1))
     for m in re.finditer(r'MONVIOL\|(\d+)\|(.*?)"?\s*$', out, re.M):
         r.monviols.append((int(m.group(1)), m.group(2).strip()))
+    for m in re.finditer(r'MONNOTE\|(\d+)\|(.*?)"?\s*$', out, re.M):
+        r.monnotes.append((int(m.group(1)), m.group(2).strip()))
     if r.violated is None and r.rejected_line is None and not r.monviols:
         if 'Model checking completed. No error has been found.' not in out and not (simulate and rc == 0):
             if simulate and ('Finished' in out or rc in (0, 143, 124)):
@@ -284,8 +287,13 @@ def exec_at_line(events, line):
 def sched_line(evs):
     """replayable schedule line of one recorded execution"""
     r = evs[0]
-    head = ['prog=%s' % r['o']] + ['%s=%d' % (k, v) for k, v in sorted(r.get('p', {}).items())]
-    steps = ['%d:%d' % (e['t'], e.get('a', 0)) for e in evs[1:] if e.get('s', 0) == 1]
+    head = ['prog=%s' % r['o']] + ['%s=%d' % (k, v) for k, v in sorted(r.get('p', {}).items()) if k not in ('starveT', 'starveK')]
+    steps = []
+    for e in evs[1:]:
+        if e['k'] == 'starved' and not any(h.startswith('starveT=') for h in head):
+            head += ['starveT=%d' % e['t'], 'starveK=%d' % len(steps)]
+        if e.get('s', 0) == 1:
+            steps.append('%d:%d' % (e['t'], e.get('a', 0)))
     return ' '.join(head) + ' | ' + ' '.join(steps)
 
 
@@ -339,6 +347,8 @@ def validate(files, module, cfg, jobs=None, tag='val', invariants_are_drift=True
             stats['wall'] = max(stats['wall'], r.wall)
             for (ln, txt) in r.monviols:
                 findings.append({'file': f, 'kind': 'monviol', 'line': ln, 'text': txt})
+            for (ln, txt) in r.monnotes:
+                findings.append({'file': f, 'kind': 'note', 'line': ln, 'text': txt})
             if r.rejected_line is not None:
                 findings.append({'file': f, 'kind': 'rejected', 'line': r.rejected_line, 'text': 'trace not accepted'})
             elif r.violated is not None:
